@@ -120,6 +120,7 @@ var (
 	histRounds = map[string]int{} // rounds between the synchrony point and the last decision
 	histSlack  = map[string]int{} // bound - decision round
 	histEnd    = map[string]int{}
+	histPasses = map[string]int{} // gossip passes per closure (the last one changes nothing)
 	counted    = map[string]bool{}
 )
 
@@ -213,6 +214,17 @@ func oracle(c core.Case, out []string) []core.Finding {
 				check(i)
 			}
 		case "closure":
+			if pp := field(strings.SplitN(o, " ;; ", 2)[0], "p"); pp != "" {
+				statMtx.Lock()
+				if !counted["p/"+c.ID+"/"+strconv.Itoa(i)] {
+					counted["p/"+c.ID+"/"+strconv.Itoa(i)] = true
+					histPasses[pp]++
+				}
+				statMtx.Unlock()
+				if pp == "fuel" {
+					add("sync.closure-did-not-converge", fmt.Sprintf("the gossip closure was still changing node states after 64 passes (op %d)", i))
+				}
+			}
 			parts := strings.Split(o, " ;; ")
 			for _, p := range parts[1:] {
 				if id, v, ok := parseNode(p); ok {
@@ -434,6 +446,7 @@ func main() {
 				"rounds_from_synchrony_to_last_decision": histRounds,
 				"bound_minus_decision_round":             histSlack,
 				"suffix_outcomes":                        histEnd,
+				"gossip_passes_per_closure":              histPasses,
 				"generator_events":                       statCount,
 			}
 		},
